@@ -95,7 +95,8 @@ func (r *fcRun) decide(ctx context.Context, call string) sfs.Expect {
 		out = "fail"
 	}
 	// a create with outcome "ok" makes a plain file; every other entry handed out is a directory
-	return sfs.Expect{Call: call, Out: out, Dir: !(call == "create" && o == "ok")}
+	// ... and a walk with outcome "file" finds a plain file
+	return sfs.Expect{Call: call, Out: out, Dir: !(call == "create" && o == "ok") && !(call == "walk" && o == "file")}
 }
 
 func (r *fcRun) proc(ctx context.Context) int {
@@ -188,9 +189,13 @@ func doOp(ctx context.Context, sess p9p.Session, o fcOp) (int, error) {
 			perm |= p9p.DMDIR
 		}
 		_, _, err = sess.Create(ctx, f, "n", perm, p9p.ORDWR)
-	case "open":
+	case "open", "openr":
 		var qid p9p.Qid
-		qid, _, err = sess.Open(ctx, f, p9p.ORDWR)
+		mode := p9p.Flag(p9p.ORDWR)
+		if o.K == "openr" {
+			mode = p9p.OREAD
+		}
+		qid, _, err = sess.Open(ctx, f, mode)
 		if err == nil {
 			q = int(qid.Path)
 		}
@@ -434,6 +439,11 @@ func directedScenarios() []dirScen {
 		l = append(l, ds("during-remove-fail", nil, fcOp{"remove", 0, 0, "fail"}, "remove", "", o2))
 		// create's reply (Qid of the new entry) for a plain file
 		l = append(l, ds("during-create-reply", nil, fcOp{"create", 0, 0, "ok"}, "qid", "create", o2))
+	}
+	// two reads of one plain file opened read-only: the file system must not see them overlap
+	for _, o2 := range []fcOp{{"read", 6, 0, "ok"}, {"stat", 6, 0, "ok"}, {"clunk", 6, 0, "ok"}} {
+		l = append(l, dirScen{Name: "second-request-during-read-of-readonly-file", Pre: []fcOp{{"walk", 0, 6, "file"}, {"openr", 6, 0, "ok"}},
+			Op1: fcOp{"read", 6, 0, "ok"}, ParkCall: "read", Op2: o2})
 	}
 	// two requests queued on the fid's lock behind a slow one: the first of them unbinds the fid (its release may
 	// fail), the second must then find the fid gone
